@@ -32,7 +32,7 @@ NSS = [("ex", "http://example.org/ns/"), ("foo", "http://foo.example/x#"), ("urn
 SIMPLE_ANON = {"attribution", "communication", "delegation", "influence", "specialization", "alternate", "membership"}
 NO_QUALIFIED_FORM = {"alternate"}      # the writer has no form at all for an identified alternateOf; identified specialization / membership use the library's own prov:qualifiedSpecialization / prov:qualifiedMembership
 REL_KINDS = [k for k in spec.RELATION_KINDS if k != "mention"]
-LOCALS = ["e1", "e2", "a1", "a2", "ag1", "x", "y_2", "Z"]
+LOCALS = ["e1", "e2", "a1", "a2", "ag1", "x", "y_2", "Z", "a/1"]
 PROV_CLASS_LOCALS = {spec.KINDS[k][1] for k in spec.KINDS} | set(spec.SUBTYPE_TYPE_TO_BASE) | {"Bundle", "Collection"}
 
 
